@@ -15,7 +15,8 @@
    a reorg inside the window never leaves a history empty, the store's own depth guard agrees
    with the protocol's) it gives progress for every operation. *)
 From Brc.Model Require Import Base History Table BlockTable Store Crash.
-From Brc.Proofs Require Import HistoryP KvP TableP StoreP.
+From Brc.Model Require Import Engine EngineStore Allowed.
+From Brc.Proofs Require Import HistoryP KvP TableP StoreP EngineP EngineStoreP AllowedP.
 
 Arguments N.add : simpl never.
 Arguments N.sub : simpl never.
@@ -472,3 +473,43 @@ Section CrunProgress.
     exists s. exact Hc.
   Qed.
 End CrunProgress.
+
+(* ================= from the engine's block protocol to the store =================
+   Every history of engine calls that issues store operations of the shape the engine code
+   issues ([allowed]) yields a store trace that is well-formed, on which the store model never
+   fails, keeps its invariant, and accepts every reorg the protocol allows next, restoring the
+   values as of the target block. *)
+Section EndToEnd.
+  Variables W FN FB IDX : N.
+
+  Theorem engine_end_to_end (h : list (call * list sop)) :
+    allowed W FN FB IDX g_init wf_init h ->
+    exists st s,
+      wf_run W wf_init (concat (map snd h)) = Some st /\
+      sto_run W st_empty (concat (map snd h)) = Ok s /\
+      SInv W s (fs_run fs_init (concat (map snd h))) st /\
+      forall n st', wf_step W st (SReorg n) = Some st' ->
+        exists s', sto_step W s (SReorg n) = Ok s' /\
+                   forall k, t_latest (st_t s') k = Ok (fst (fs_run fs_init (concat (map snd h))) k n).
+  Proof.
+    intros Hall.
+    destruct (engine_history_wf W FN FB IDX h g_init wf_init Rel_init Hall) as (st & Hwf).
+    destruct (store_run_progress W _ st Hwf) as (s & Hrun).
+    pose proof (store_run_inv W _ st_empty fs_init wf_init s st (SInv_init W) Hwf Hrun) as I.
+    exists st, s. split; [exact Hwf|]. split; [exact Hrun|]. split; [exact I|].
+    intros n st' Hre. destruct (store_reorg_ok W s _ st n st' I Hre) as (s' & Hs').
+    exists s'. split; [exact Hs'|]. intros k.
+    apply (store_reorg_restores W s _ st n st' s' k I Hre Hs').
+  Qed.
+
+  Theorem checked_history_end_to_end (h : list (call * list sop)) :
+    allowed_b W FN FB IDX g_init wf_init h = true ->
+    exists st s,
+      wf_run W wf_init (concat (map snd h)) = Some st /\
+      sto_run W st_empty (concat (map snd h)) = Ok s /\
+      SInv W s (fs_run fs_init (concat (map snd h))) st /\
+      forall n st', wf_step W st (SReorg n) = Some st' ->
+        exists s', sto_step W s (SReorg n) = Ok s' /\
+                   forall k, t_latest (st_t s') k = Ok (fst (fs_run fs_init (concat (map snd h))) k n).
+  Proof. intros H. apply engine_end_to_end. apply allowed_b_sound. exact H. Qed.
+End EndToEnd.
